@@ -724,6 +724,15 @@ func (t *tr) recvLean() string {
 // call: translate a call; returns the Lean terms of its results. `stmt` = the value is not used.
 func (t *tr) call(c *ast.CallExpr, stmt bool) ([]string, []T) {
 	callee := calleeText(t.p, c.Fun, t.recvName)
+	// `[]byte(s)` of a string: the same byte list
+	if at, ok := c.Fun.(*ast.ArrayType); ok && at.Len == nil && len(c.Args) == 1 {
+		if id, ok := at.Elt.(*ast.Ident); ok && id.Name == "byte" {
+			a, aty := t.expr(c.Args[0])
+			if aty.Kind == "str" {
+				return []string{a}, []T{tStr}
+			}
+		}
+	}
 	// conversions and builtins
 	if id, ok := c.Fun.(*ast.Ident); ok {
 		switch id.Name {
@@ -1821,6 +1830,30 @@ func (t *tr) emitPureIf(x *ast.IfStmt, vars []string) {
 	t.emit("%s := %s", tupleOf(vars), n)
 }
 
+// clauseBody: the statements of a switch clause. In Go an unlabeled `break` inside a switch ends the SWITCH (not an
+// enclosing loop): as the last statement of the clause it is dropped, anywhere else in the clause it is refused.
+func (t *tr) clauseBody(body []ast.Stmt) []ast.Stmt {
+	if n := len(body); n > 0 {
+		if b, ok := body[n-1].(*ast.BranchStmt); ok && b.Tok == token.BREAK && b.Label == nil {
+			body = body[:n-1]
+		}
+	}
+	for _, st := range body {
+		ast.Inspect(st, func(n ast.Node) bool {
+			switch y := n.(type) {
+			case *ast.ForStmt, *ast.RangeStmt, *ast.SwitchStmt, *ast.TypeSwitchStmt, *ast.SelectStmt, *ast.FuncLit:
+				return false
+			case *ast.BranchStmt:
+				if y.Tok == token.BREAK && y.Label == nil {
+					t.fail(y, "break that ends a switch from inside a clause")
+				}
+			}
+			return true
+		})
+	}
+	return body
+}
+
 func (t *tr) switchStmt(x *ast.SwitchStmt) {
 	t.push()
 	if x.Init != nil {
@@ -1865,20 +1898,20 @@ func (t *tr) switchStmt(x *ast.SwitchStmt) {
 		t.emit("%s %s then", kw, strings.Join(conds, " || "))
 		t.ind++
 		t.push()
-		t.block(c.Body)
+		t.block(t.clauseBody(c.Body))
 		t.pop()
 		t.ind--
 	}
 	if def != nil {
 		if first {
 			t.push()
-			t.block(def.Body)
+			t.block(t.clauseBody(def.Body))
 			t.pop()
 		} else {
 			t.emit("else")
 			t.ind++
 			t.push()
-			t.block(def.Body)
+			t.block(t.clauseBody(def.Body))
 			t.pop()
 			t.ind--
 		}
